@@ -14,6 +14,7 @@ import (
 	"flag"
 	"fmt"
 	"os"
+	"runtime"
 	"sync"
 	"sync/atomic"
 	"time"
@@ -22,6 +23,7 @@ import (
 	"github.com/aptpod/iscp-go/message"
 	"github.com/aptpod/iscp-go/transport"
 	"github.com/aptpod/iscp-go/transport/multi"
+	"github.com/aptpod/iscp-go/transport/nic"
 	"github.com/aptpod/iscp-go/transport/reconnect"
 	uuid "github.com/google/uuid"
 
@@ -266,6 +268,50 @@ func connWorkload(deadline time.Time, seed uint64, wg *sync.WaitGroup) {
 			}
 		})
 	}
+	// upstreams with SLOW application hooks (send hook, ack hook, resumed / closed handlers) and the
+	// immediate flush policy against a broker that acks at once: events keep being queued
+	// (addHandler) while the stream's event dispatcher is delivering an earlier batch
+	for k := 0; k < 2; k++ {
+		k := k
+		spawn(func(r *rng.R) {
+			var napN atomic.Int64 // the hooks run on library goroutines: no shared PRNG here
+			nap := func() {
+				n := napN.Add(1)
+				if n%3 == 0 {
+					runtime.Gosched()
+				} else {
+					time.Sleep(time.Duration(1+n%5) * time.Millisecond)
+				}
+			}
+			for alive() {
+				ctx, cancel := ctxms(300)
+				up, err := conn.OpenUpstream(ctx, fmt.Sprintf("hook%d", k), iscp.WithUpstreamQoS(message.QoSReliable),
+					iscp.WithUpstreamFlushPolicyImmediately(), iscp.WithUpstreamCloseTimeout(100*time.Millisecond),
+					iscp.WithUpstreamSendDataPointsHooker(iscp.SendDataPointsHookerFunc(func(uuid.UUID, iscp.UpstreamChunk) { nap() })),
+					iscp.WithUpstreamReceiveAckHooker(iscp.ReceiveAckHookerFunc(func(uuid.UUID, iscp.UpstreamChunkResult) { nap() })),
+					iscp.WithUpstreamResumedEventHandler(iscp.UpstreamResumedEventHandlerFunc(func(*iscp.UpstreamResumedEvent) { nap() })),
+					iscp.WithUpstreamClosedEventHandler(iscp.UpstreamClosedEventHandlerFunc(func(*iscp.UpstreamClosedEvent) { nap() })))
+				cancel()
+				if err != nil {
+					time.Sleep(5 * time.Millisecond)
+					continue
+				}
+				t0 := time.Now()
+				for i := 0; alive() && time.Since(t0) < 400*time.Millisecond; i++ {
+					ctx, cancel := ctxms(100)
+					up.WriteDataPoints(ctx, ids[i%3], pt(i))
+					cancel()
+					ops.Add(1)
+					if i%8 == 0 {
+						time.Sleep(200 * time.Microsecond)
+					}
+				}
+				ctx, cancel = ctxms(300)
+				up.Close(ctx)
+				cancel()
+			}
+		})
+	}
 	// downstreams: open / read / read metadata / state / close
 	for k := 0; k < 2; k++ {
 		spawn(func(r *rng.R) {
@@ -281,7 +327,9 @@ func connWorkload(deadline time.Time, seed uint64, wg *sync.WaitGroup) {
 					filters = append(filters, message.NewDownstreamFilterAllFor(srcNodes[r.Intn(nf)]))
 				}
 				down, err := conn.OpenDownstream(ctx, filters,
-					iscp.WithDownstreamAckFlushInterval(5*time.Millisecond), iscp.WithDownstreamQoS(message.QoSReliable))
+					iscp.WithDownstreamAckFlushInterval(5*time.Millisecond), iscp.WithDownstreamQoS(message.QoSReliable),
+					iscp.WithDownstreamResumedEventHandler(iscp.DownstreamResumedEventHandlerFunc(func(*iscp.DownstreamResumedEvent) { time.Sleep(2 * time.Millisecond) })),
+					iscp.WithDownstreamClosedEventHandler(iscp.DownstreamClosedEventHandlerFunc(func(*iscp.DownstreamClosedEvent) { time.Sleep(2 * time.Millisecond) })))
 				cancel()
 				if err != nil {
 					time.Sleep(5 * time.Millisecond)
@@ -564,10 +612,43 @@ func multiWorkload(deadline time.Time, seed uint64, wg *sync.WaitGroup) {
 	}
 }
 
+// ---------------------------------------------------------------- workload 4: transport/nic Manager
+
+// many subscribers, NIC change events in flight, Close while they are being delivered
+func nicWorkload(deadline time.Time, seed uint64, wg *sync.WaitGroup) {
+	defer wg.Done()
+	r := rng.New(seed ^ 0x9191)
+	for time.Now().Before(deadline) {
+		m := nic.OpenManager([]string{"eth0", "eth1", "wlan0"}, "eth0")
+		n := 8 + r.Intn(40)
+		for i := 0; i < n; i++ {
+			m.Subscribe()
+		}
+		stop := make(chan struct{})
+		go func() {
+			names := m.GetNICNames()
+			for i := 0; ; i++ {
+				select {
+				case <-stop:
+					return
+				default:
+					m.ChangeNIC(names[i%len(names)])
+					m.GetCurrentNIC()
+					ops.Add(1)
+				}
+			}
+		}()
+		time.Sleep(time.Duration(200+r.Intn(800)) * time.Microsecond)
+		m.Close()
+		close(stop)
+		time.Sleep(200 * time.Microsecond)
+	}
+}
+
 func main() {
 	dur := flag.Int("dur", 10, "seconds")
 	seed := flag.Uint64("seed", 1, "seed")
-	which := flag.String("which", "all", "all|conn|reconnect|multi")
+	which := flag.String("which", "all", "all|conn|reconnect|multi|nic")
 	flag.Parse()
 	deadline := time.Now().Add(time.Duration(*dur) * time.Second)
 	var wg sync.WaitGroup
@@ -590,6 +671,12 @@ func main() {
 	if *which == "all" || *which == "reconnect" {
 		wg.Add(1)
 		go reconnectWorkload(deadline, *seed, &wg)
+	}
+	// (not part of "all": Manager.Close can panic a concurrent event delivery - send on closed channel -
+	// which would take the other workloads down with it; the driver runs it in processes of its own)
+	if *which == "nic" {
+		wg.Add(1)
+		go nicWorkload(deadline, *seed, &wg)
 	}
 	if *which == "all" || *which == "multi" {
 		wg.Add(1)
